@@ -11,5 +11,6 @@ CONSTANTS
   MaxKill = 2
   MaxDetach = 1
   MaxEnv = 6
+  NPS = 7
   MaxFail = 3
 CHECK_DEADLOCK FALSE
